@@ -60,7 +60,7 @@ Ltac astrip :=
 
 Theorem step_Al s e : Al s -> Al (step s e).
 Proof.
-  intros A. destruct e as [k tmo| | | |how|r|o|o|o|dt|o|k tmo|o]; unfold step.
+  intros A. destruct e as [k tmo| | | |how|r|o|o|o|dt|o|o|k tmo|o]; unfold step.
   - (* Start *) destruct (next_msgid (last s) (inuse s)); try exact A.
     destruct (is_running s); (eapply Al_app; [exact A|reflexivity|]); apply alc_not; cbn; try destruct k; discriminate.
   - (* DrvOp *) destruct (is_running s); cbn [negb]; [|exact A].
@@ -99,6 +99,7 @@ Proof.
     destruct (o_status c); try exact A; try destruct (fix20 (fx s)); destruct (is_running s); repeat astrip; exact A.
   - (* Advance *) repeat astrip; exact A.
   - (* ViaHandle *) repeat astrip; exact A.
+  - (* DropCall *) destruct (getop s o) as [c|] eqn:Ec; [destruct (o_status c) eqn:Est|]; repeat astrip; exact A.
   - (* Alloc *) unfold alloc. destruct (next_msgid (last s) (inuse s)); try exact A.
     eapply Al_app; [exact A|reflexivity|]. intros _. cbn. now repeat split.
   - (* Enqueue *) unfold enqueue. destruct (getop s o) as [c|] eqn:Ec; [|exact A].
@@ -146,12 +147,12 @@ Ltac kstrip I :=
 (* what the caller of an operation that has taken its id but not yet queued the request can observe of everything else that goes on -
    other callers' operations being allocated, queued, sent, answered, timed out, abandoned; the connection failing - is: nothing. No event
    other than its own Enqueue changes the record (and its id stays reserved: Lin's l_id clause carries it) *)
-Theorem alloc_untouched s e o c : getop s o = Some c -> inert c -> e <> Enqueue o -> getop (step s e) o = Some c.
+Theorem alloc_untouched s e o c : getop s o = Some c -> inert c -> e <> Enqueue o -> e <> DropCall o -> getop (step s e) o = Some c.
 Proof.
-  intros Hc I He. change (kept o c (step s e)). assert (H0 : kept o c s) by exact Hc. destruct I as (Ist & Irest). pose proof (conj Ist Irest) as I.
+  intros Hc I He Hd. change (kept o c (step s e)). assert (H0 : kept o c s) by exact Hc. destruct I as (Ist & Irest). pose proof (conj Ist Irest) as I.
   assert (Hother : forall o' c', getop s o' = Some c' -> o_status c' <> CAlloc -> o' <> o).
   { intros o' c' H' Hn ->. rewrite Hc in H'. injection H' as <-. contradiction. }
-  destruct e as [k tmo| | | |how|r|o'|o'|o'|dt|o'|k tmo|o']; unfold step.
+  destruct e as [k tmo| | | |how|r|o'|o'|o'|dt|o'|o'|k tmo|o']; unfold step.
   - (* Start *) destruct (next_msgid (last s) (inuse s)); try exact H0.
     destruct (is_running s); (eapply kept_app; [exact H0|reflexivity]).
   - (* DrvOp *) destruct (is_running s); cbn [negb]; [|exact H0].
@@ -191,6 +192,7 @@ Proof.
     all: intros E; now elim Hne.
   - (* Advance *) repeat kstrip I; exact H0.
   - (* ViaHandle *) repeat kstrip I; exact H0.
+  - (* DropCall of another operation *) destruct (getop s o') as [c1|] eqn:Ec; [destruct (o_status c1) eqn:Est|]; repeat kstrip I; try exact H0. intros ->. now elim Hd.
   - (* Alloc *) unfold alloc. destruct (next_msgid (last s) (inuse s)); try exact H0. eapply kept_app; [exact H0|reflexivity].
   - (* Enqueue of another operation *) unfold enqueue. destruct (getop s o') as [c1|] eqn:Ec; [|exact H0].
     assert (Hne : o' <> o) by (intros ->; now elim He).
